@@ -20,8 +20,9 @@ Outputs == {"json", "lineprotocol"}
 \* crlfField: the script file has CR LF line ends, also inside a multi-line string literal whose value it stores: the script
 \* that runs is the file's bytes, nothing is normalised on the way
 \* nilField: the script leaves a field whose value is nil: it is part of the point and is printed (JSON null)
+\* setTimeEpoch / setTimeBefore: the script sets the time to 1970-01-01T00:00:00Z exactly / to a moment before it: a time like any other
 \* noFields: the script leaves a point without any field (everything dropped or moved to tags): still a point, printed as JSON
-Kinds == {"noop", "addField", "crlfField", "nilField", "noFields", "toTag", "setMeas", "clearMeas", "setTime", "dropMsg", "useSibling", "loadErr", "runErr", "linkErr", "selfUse"}
+Kinds == {"noop", "addField", "crlfField", "nilField", "noFields", "toTag", "setMeas", "clearMeas", "setTime", "setTimeEpoch", "setTimeBefore", "dropMsg", "useSibling", "loadErr", "runErr", "linkErr", "selfUse"}
 
 VARIABLES cfg, phase, pt, snap, out, err
 vars == <<cfg, phase, pt, snap, out, err>>
@@ -34,6 +35,8 @@ Effect(k, p) == CASE k \in {"addField", "crlfField", "nilField"} -> [p EXCEPT !.
                   [] k = "setMeas" -> [p EXCEPT !.meas = "new"]
                   [] k = "clearMeas" -> [p EXCEPT !.meas = "empty"]     \* set_measurement(""): an empty name is still the script's result
                   [] k = "setTime" -> [p EXCEPT !.time = "set", !.dropped = TRUE]   \* default_time drops its key
+                  [] k = "setTimeEpoch" -> [p EXCEPT !.time = "epoch"]      \* the key holding the date is the script's own and is consumed
+                  [] k = "setTimeBefore" -> [p EXCEPT !.time = "before"]
                   [] k \in {"dropMsg", "noFields"} -> [p EXCEPT !.dropped = TRUE]
                   [] k = "useSibling" -> [p EXCEPT !.fromlib = TRUE]
                   [] OTHER -> p
